@@ -27,7 +27,7 @@ SEQ_ACTIONS = ["M_Dequeue", "M_Skip", "M_SpawnTask", "M_PollTasks", "M_LockVfs",
                "M_OpenStore", "M_WatchedDelete", "M_UnlockVfs", "M_TakeChange", "M_RequestCancel", "M_AcquireDbWrite",
                "M_SetInputs", "M_SpawnDiagT", "M_Close", "D_Emit", "E_Publish", "T_Start", "T_Aborted", "T_ReadVfs", "T_QueryDone",
                "T_Return", "D_Return", "C_Script", "Finish"]
-DOC_KIND = {"u": "untitled", "h": "file_with_authority", "g": "other_scheme", "o": "outside_package", "e": "percent_encoded",
+DOC_KIND = {"u": "untitled", "h": "file_with_authority", "g": "other_scheme", "o": "outside_package", "e": "percent_encoded", "n": "percent_encoded_not_utf8",
             "q": "query_fragment"}
 PER_SESSION = 25
 DEADLINE = 30.0
@@ -120,6 +120,8 @@ class Player:
             return None
         if d == "o":                                   # outside any package: no gleam.toml above it
             return os.path.join(self.root, f"outside{self.k}", "o.gleam")
+        if d == "n":                                   # a file name that is not valid UTF-8 (legal on this platform)
+            return os.fsdecode(os.fsencode(os.path.join(self.pkg, "src")) + b"/\xff\xfen.gleam")
         name = {"e": "caf\u00e9 \u4e2d x", "q": "d3"}.get(d, d)
         return os.path.join(self.pkg, "src", name + ".gleam")
 
@@ -131,6 +133,8 @@ class Player:
             return f"file://fileserver/share/p{self.k}/src/b.gleam"
         if d == "g":                                   # another scheme whose path part names an existing file
             return "git:" + self.path("d1")
+        if d == "n":
+            return lsp.uri(os.path.join(self.pkg, "src")) + "/%FF%FEn.gleam"
         if d == "q":                                   # same file path as d3
             return lsp.uri(self.path("d3")) + "?rev=1#L1"
         return lsp.uri(self.path(d))                   # percent-encodes "e"
